@@ -71,6 +71,48 @@ def is_membership_test(test):
         and isinstance(test.ops[0], ast.In)
 
 
+def membership_skip_ok(test, edge, loop, receiver_text):
+    """a membership guard may bypass an insertion if the container tested
+    is the insertion's own target (`if x in s: continue; s.add(x)` --
+    idempotent) or a container the loop does not modify (a fixed filter).
+    A guard on a second container that the loop also fills (a "seen" set
+    with a coarser key) can hide items that differ in what the key leaves
+    out.  Returns True when the bypass edge is acceptable."""
+    if not (isinstance(test, ast.Compare) and len(test.ops) == 1
+            and isinstance(test.ops[0], (ast.In, ast.NotIn))):
+        return False
+    cont = test.comparators[0]
+    txt = unparse(cont)
+    if txt == receiver_text:
+        return True
+    base = cont
+    while isinstance(base, (ast.Subscript, ast.Attribute)):
+        base = base.value
+    if not isinstance(base, ast.Name):
+        return False
+    # modified inside the loop?
+    for n in ast.walk(loop):
+        if isinstance(n, ast.Call) and isinstance(n.func, ast.Attribute) \
+                and n.func.attr in ('add', 'append', 'update', 'setdefault',
+                                    'extend', 'insert'):
+            b = n.func.value
+            while isinstance(b, (ast.Subscript, ast.Attribute)):
+                b = b.value
+            if isinstance(b, ast.Name) and b.id == base.id:
+                return False
+        if isinstance(n, (ast.Assign, ast.AugAssign)):
+            tgs = n.targets if isinstance(n, ast.Assign) else [n.target]
+            for tg in tgs:
+                b = tg
+                sub = False
+                while isinstance(b, (ast.Subscript, ast.Attribute)):
+                    sub = True
+                    b = b.value
+                if sub and isinstance(b, ast.Name) and b.id == base.id:
+                    return False
+    return True
+
+
 def check_cover(ctx, fi, rule, key, loop, is_action, allow=None,
                 what='item', consequence=''):
     """loop: ast.For/While node; is_action(cfg node) -> bool"""
@@ -93,12 +135,39 @@ def check_cover(ctx, fi, rule, key, loop, is_action, allow=None,
         return
     allowed_edges = set()
     if allow is not None:
+        inside0 = {n.id for n in cfg.nodes if n.ast is not None
+                   and contains(loop, n.ast) and n.id != hdr.id}
         for n in cfg.nodes:
             if n.kind == 'if' and n.ast is not None and contains(
                     loop, n.ast):
-                for lab in ('true', 'false'):
-                    if allow(n.ast.test, lab):
-                        allowed_edges.add((n.id, lab))
+                for (t, lab) in cfg.succ[n.id]:
+                    if lab not in ('true', 'false'):
+                        continue
+                    # only an edge that can reach the next iteration
+                    # without the action is a bypass; the other edge of
+                    # the test is ordinary flow and is never cut
+                    if t in acts:
+                        continue
+                    if t == hdr.id or t not in inside0:
+                        bypass = True
+                    else:
+                        bypass = cfg.path(
+                            t, {hdr.id} | {x.id for x in cfg.nodes
+                                           if x.id not in inside0},
+                            avoid=lambda x: x.id in acts,
+                            edge_ok=lambda a, b, l2: l2 != 'exc') \
+                            is not None
+                    # ... and the other edge must lead to the action
+                    # (otherwise this test is not what decides)
+                    if bypass and allow(n.ast.test, lab):
+                        others = [t2 for (t2, l2) in cfg.succ[n.id]
+                                  if l2 in ('true', 'false') and l2 != lab]
+                        if all(t2 in acts or (t2 != hdr.id and cfg.path(
+                                t2, acts,
+                                avoid=lambda x: x.id == hdr.id,
+                                edge_ok=lambda a, b, l3: l3
+                                != 'exc') is not None) for t2 in others):
+                            allowed_edges.add((n.id, lab))
 
     def edge_ok(a, b, lab):
         if lab == 'exc':
